@@ -199,6 +199,7 @@ structure St where
   cancelled : Bool := false       -- the caller's context has been cancelled
   watcherFailed : Bool := false
   graph : Graph.Adj Id := []
+  edges : List (Id × Id) := []    -- the AddEdge calls of DependencyGraph in order
   waitIdx : Nat := 0
 deriving Repr
 
@@ -283,7 +284,7 @@ inductive TaskKind
   | apply (ids : List Id)
   | prune (ids : List Id)
   | wait (ids : List Id) (cond : Wait.Cond)
-  | invSet (prev : List Id)
+  | invSet (prev : List Id) (prevErr : Bool)     -- prevErr: the previous inventory could not be read
 deriving Repr
 
 structure Task where
@@ -293,7 +294,7 @@ deriving Repr
 
 def Task.action (t : Task) (destroy : Bool) : String :=
   match t.kind with
-  | .invAdd _ | .invSet _ => "Inventory"
+  | .invAdd _ | .invSet _ _ => "Inventory"
   | .apply _ => "Apply"
   | .prune _ => if destroy then "Delete" else "Prune"
   | .wait _ _ => "Wait"
@@ -301,7 +302,7 @@ def Task.action (t : Task) (destroy : Bool) : String :=
 def Task.ids (t : Task) : List Id :=
   match t.kind with
   | .invAdd ids | .apply ids | .prune ids | .wait ids _ => ids
-  | .invSet _ => []
+  | .invSet _ _ => []
 
 def numbered (pfx : String) (n : Nat) : String := s!"{pfx}-{n}"
 
@@ -325,7 +326,12 @@ structure Plan where
   applyIds : List Id              -- valid apply objects (in input order)
   pruneIds : List Id
   graph : Graph.Adj Id
+  edges : List (Id × Id)
 deriving Repr
+
+/-- `Graph.Dependents(to)`: `reverseEdges[to]`, i.e. the sources in the order in which `AddEdge` first saw them -/
+def dependentsOrdered (edges : List (Id × Id)) (v : Id) : List Id :=
+  dedup ((edges.filter (fun e => e.2 = v)).map (·.1))
 
 def dobjOfManifest (m : Manifest) : DepEdges.DObj :=
   { id := m.id, dependsOn := depAnn m.deps m.depsRaw, mutation := mutAnn m.mutFrom }
@@ -340,7 +346,7 @@ def depErrKind (e : DepEdges.DepErr) : String :=
   | [] => "field"
 
 /-- `TaskQueueBuilder.Build` (+ the field validation done before it); `prev` = GetClusterObjs at the end of Build -/
-def buildPlan (run : Run) (applyMs : List Manifest) (pruneObjs : List Live) (prev : List Id) : Plan :=
+def buildPlan (run : Run) (applyMs : List Manifest) (pruneObjs : List Live) (prev : List Id) (prevErr : Bool) : Plan :=
   -- field validation (applier validates the apply set, destroyer the delete set — both arrive here as `fieldBad`)
   let fieldBad : List Id :=
     if run.destroy then (pruneObjs.filter (fun o => fieldInvalid { id := o.id })).map (·.id)
@@ -368,8 +374,8 @@ def buildPlan (run : Run) (applyMs : List Manifest) (pruneObjs : List Live) (pre
   let (ta, w1) := if applyIds.isEmpty then ([], 0) else layerTasks true dryRun applyLayers 0 0
   let pruneLayers := Graph.reverseSetList (Graph.hydrate Ordering.less (fun v => decide (v ∈ pruneIds)) s.1)
   let (tp, _) := if (run.destroy || !run.opts.noPrune) && !pruneIds.isEmpty then layerTasks false dryRun pruneLayers 0 w1 else ([], w1)
-  let tEnd : Task := ⟨if run.destroy then "inventory-delete-or-update-0" else "inventory-set-0", .invSet prev⟩
-  { tasks := t0 ++ ta ++ tp ++ [tEnd], invalid := inv3, valErrors := errs3, applyIds := applyIds, pruneIds := pruneIds, graph := g }
+  let tEnd : Task := ⟨if run.destroy then "inventory-delete-or-update-0" else "inventory-set-0", .invSet prev prevErr⟩
+  { tasks := t0 ++ ta ++ tp ++ [tEnd], invalid := inv3, valErrors := errs3, applyIds := applyIds, pruneIds := pruneIds, graph := g, edges := de.edges }
 
 /-! ## tasks -/
 
@@ -443,7 +449,7 @@ def applyOne (group : String) (s : St) (id : Id) : St :=
         | .ok frm =>
           let ok (s : St) (uid : String) (gen : Int) : St :=
             { (s.emit (.op "apply" group id "Successful" "")) with mgr := s.mgr.add id .apply .succeeded uid gen }
-          if s.run.opts.ssa || s.run.opts.dry = .server then
+          if (s.run.opts.ssa && s.run.opts.dry ≠ .client) || s.run.opts.dry = .server then
             -- one server-side-apply PATCH (create or update)
             let dry := s.run.opts.dry = .server
             let (s', res) := s.mutReq "patch" id dry "" "" (fun c =>
@@ -496,7 +502,7 @@ def pruneOne (group : String) (uids : List String) (localNs : List String) (s : 
       else fail s' (if res = "error" then "fault" else "notfound")
   else if !(canPrune live.owner s.run.opts.policy) then skip s "policy"
   else if !s.run.destroy && live.id.group = "" && live.id.kind = "Namespace" && live.id.name ∈ localNs then skip s "namespace-in-use"
-  else match depFilter s.invalid s.mgr .delete (dryOf s) (Graph.dependents s.graph id) with
+  else match depFilter s.invalid s.mgr .delete (dryOf s) (dependentsOrdered s.edges id) with
     | .fatal r => fail s r
     | .skip r => skip s r
     | .pass =>
@@ -529,9 +535,10 @@ def finalInventory (mgr : Mgr Id) (prev abandoned invalid : List Id) : List Id :
   let i8 := IdSet.diff i7 abandoned
   IdSet.union i8 (IdSet.inter prev invalid)
 
-/-- `destroySuccessful` -/
-def destroySuccessful (mgr : Mgr Id) : Bool :=
-  (mgr.withActuation .delete .failed).isEmpty && (mgr.withReconcile .failed).isEmpty && (mgr.withReconcile .timeout).isEmpty
+/-- `destroySuccessful` (as repaired: nothing that is still tracked may remain) -/
+def destroySuccessful (mgr : Mgr Id) (prev abandoned invalid : List Id) : Bool :=
+  (mgr.withActuation .delete .failed).isEmpty && (mgr.withReconcile .failed).isEmpty && (mgr.withReconcile .timeout).isEmpty &&
+  (IdSet.diff (mgr.withActuation .delete .skipped) abandoned).isEmpty && (IdSet.inter prev invalid).isEmpty
 
 def storable (ids : List Id) : Bool :=
   ids.all fun i => IdStr.roundTrips { ns := i.ns.toList, name := i.name.toList, group := i.group.toList, kind := i.kind.toList }
@@ -589,12 +596,14 @@ def runInvAdd (s : St) (ids : List Id) : TaskRes :=
           (s', if res = "ok" then none else some (if res = "error" then "fault" else "other"))
 
 /-- `DeleteOrUpdateInvTask.Start` -/
-def runInvSet (s : St) (prev : List Id) : TaskRes :=
-  if s.run.destroy && destroySuccessful s.mgr then
+def runInvSet (s : St) (prev : List Id) (prevErr : Bool) : TaskRes :=
+  if prevErr then (s, some "fault")
+  else if s.run.destroy && destroySuccessful s.mgr prev s.abandoned s.invalid then
     -- deleteInventory: list by label, delete each
     if dryOf s then
-      let (s, _) := s.invRead
-      (s, none)
+      -- the LIST happens before the dry-run test of the per-object delete
+      let (s, r) := s.invRead
+      (s, if r.isNone then some "fault" else none)
     else
       let (s, r) := s.invRead
       match r with
@@ -734,7 +743,7 @@ def runTask (s : St) (t : Task) (pruneObjs : List Live) (localNs : List String) 
     let lives := ids.filterMap (fun i => pruneObjs.find? (fun o => o.id = i))
     (lives.foldl (pruneOne t.name uids localNs) s, none)
   | .wait ids cond => runWait t.name s ids cond
-  | .invSet prev => runInvSet s prev
+  | .invSet prev prevErr => runInvSet s prev prevErr
 
 /-- `TaskStatusRunner.Run` after the sync event: tasks in order; stop after the task during which the run was aborted -/
 def runTasks (pruneObjs : List Live) (localNs : List String) : St → List Task → St
@@ -783,15 +792,18 @@ def runOne (c : Cluster) (run : Run) : St :=
     -- Build reads the stored inventory once more (errors ignored)
     let (s, prevR) := s.invRead
     let prev : List Id := match prevR with | some (some l) => l | _ => []
-    let plan := buildPlan run applyMs pruneObjs prev
+    let plan := buildPlan run applyMs pruneObjs prev prevR.isNone
     if !run.opts.skipInvalid && !plan.valErrors.isEmpty then s.emit (.error "other")
     else
       let s := plan.valErrors.foldl (fun s e => s.emit (.validation e.1 e.2)) s
-      let s := { s with invalid := plan.invalid, graph := plan.graph }
+      let s := { s with invalid := plan.invalid, graph := plan.graph, edges := plan.edges }
       -- pending registrations made by Build
       let s := { s with mgr := plan.applyIds.foldl (fun m i => m.add i .apply .pending) s.mgr }
       let s := if (run.destroy || !run.opts.noPrune) && !plan.pruneIds.isEmpty then
           { s with mgr := plan.pruneIds.foldl (fun m i => m.add i .delete .pending) s.mgr } else s
+      -- pruning disabled (as repaired): the un-applied tracked objects are recorded as skipped deletes
+      let s := if !run.destroy && run.opts.noPrune then
+          { s with mgr := pruneObjs.foldl (fun m o => m.add o.id .delete .skipped) s.mgr } else s
       let s := s.emit (.init (plan.tasks.map (fun t => (t.name, t.action run.destroy, t.ids))))
       if run.cancel = .beforeSync then s.emit (.error "canceled")
       else
